@@ -61,7 +61,7 @@ def run(prop, level, groups, assumptions, explanation, extra_cov=None, max_repla
             # witnesses: native replay must pass (encoder validation)
             for wm in (res.get('witnesses') or [])[:2]:
                 try:
-                    rr = gosymrun.replay(g['pkg'], g['rel'], h, wm)
+                    rr = gosymrun.replay(g['pkg'], g['rel'], h, wm, stress=False)   # a witness of a HELD harness: one native run validates the encoding
                 except Exception as e:
                     rr = {'kind': 'error', 'detail': str(e)}
                 replays += 1
